@@ -218,6 +218,45 @@ def run(ctx):
             ctx.violation(dict(members=[sb.hex() for sb in singles], bundle=got.hex(), expected=want.hex()),
                           'a bundled request is not the offset table followed by each member as it is encoded when sent alone'); break
     ctx.coverage['client_bundle_encodings'] = nenc
+    # ... and which members share a bundle: connector.issue (its network calls replaced by a recorder) must send every operation inside a
+    # bundle that carries that operation's own route path and send path, for every list length and size limit
+    class Probe(C.connector):
+        def __init__(self):
+            self.sent = []
+        def multiple(self, request, route_path=None, send_path=None, **kw):
+            self.sent.append((len(request), route_path, send_path))
+            return dotdict(multiple=dotdict(request=list(request)))
+    nplans = 0
+    routes = [None, [{'port': 1, 'link': 5}], [{'port': 2, 'link': '1.2.3.4'}]]
+    for nops in range(1, 15):
+        for mult in (120, 200, 500):
+            r0 = ctx.rng.choice(routes[1:]); sp = ctx.rng.choice([None, '@2/1'])
+            ops = []
+            for k in range(nops):
+                r = r0 if ctx.rng.random() < 0.8 else ctx.rng.choice(routes)
+                op = dict(path=[{'symbolic': 'T'}, {'element': k % 4}], elements=1, method='read') if k % 3 else dict(path=[{'symbolic': 'T'}, {'element': 0}], elements=2, tag_type=196, data=[k, k + 1], method='write')
+                if r is not None:
+                    op['route_path'] = r
+                if sp is not None:
+                    op['send_path'] = sp
+                ops.append(op)
+            pr = Probe()
+            try:
+                issued = list(pr.issue([dict(o) for o in ops], multiple=mult))
+            except Exception as e:
+                ctx.violation(dict(operations=nops, multiple=mult, error=type(e).__name__), 'connector.issue raised while bundling'); break
+            nplans += 1
+            k = 0
+            okay = len(issued) == nops and sum(n for n, _, _ in pr.sent) == nops
+            for n, rp, spth in pr.sent:
+                for o in ops[k:k + n]:
+                    if o.get('route_path') != rp or o.get('send_path') != spth:
+                        okay = False
+                k += n
+            if not okay:
+                ctx.violation(dict(operations=[(o.get('route_path'), o.get('send_path')) for o in ops], multiple=mult, bundles_sent=pr.sent),
+                              'a bundle was sent with a route / send path other than that of the operations in it (or operations were lost)'); break
+    ctx.coverage['client_bundling_plans'] = nplans
     # the members of a bundle are decoded by closures deferred through the parser's post-processing list: with several sessions parsing
     # bundles at once each closure must be run by the thread that registered it (the real dfa_post under generated interleavings, as in C09)
     from props import c09
